@@ -463,9 +463,10 @@ where
     #[doc(hidden)]
     pub fn verif_from_parts(parts: VerifParts<'_, C>) -> Self {
         let mut osc_raw: _ = Self::default().osc_raw;
-        for b in parts.osc_raw {
-            osc_raw.push(*b);
-        }
+        #[cfg(feature = "core")]
+        let _ = osc_raw.try_extend_from_slice(parts.osc_raw);
+        #[cfg(not(feature = "core"))]
+        osc_raw.extend_from_slice(parts.osc_raw);
         Self {
             state: parts.state,
             intermediates: parts.intermediates,
